@@ -11,6 +11,7 @@ import (
 	"time"
 
 	command "github.com/rqlite/rqlite/v10/command/proto"
+	"github.com/rqlite/rqlite/v10/internal/fsutil"
 )
 
 // SwappableDB is a wrapper around DB that allows the underlying database to be swapped out
@@ -98,7 +99,27 @@ func checkSQLiteFileOpens(drv *Driver, path string) error {
 	}
 	defer db.Close()
 	var n int
-	return db.QueryRow("SELECT COUNT(*) FROM sqlite_master").Scan(&n)
+	if err := db.QueryRow("SELECT COUNT(*) FROM sqlite_master").Scan(&n); err != nil {
+		return err
+	}
+
+	// A file that has been cut short can still have an intact first page, and so a
+	// readable schema. The header records how many pages the database has.
+	var pageCount, pageSize int64
+	if err := db.QueryRow("PRAGMA page_count").Scan(&pageCount); err != nil {
+		return err
+	}
+	if err := db.QueryRow("PRAGMA page_size").Scan(&pageSize); err != nil {
+		return err
+	}
+	sz, err := fsutil.FileSize(path)
+	if err != nil {
+		return err
+	}
+	if sz < pageCount*pageSize {
+		return fmt.Errorf("file is %d bytes long, but the database has %d pages of %d bytes", sz, pageCount, pageSize)
+	}
+	return nil
 }
 
 // Close closes the underlying database.
